@@ -260,6 +260,9 @@ pub fn run(ctx: &mut Ctx) {
     }
     long_path_family(ctx);
     incremental_family(ctx);
+    if ctx.shard == 2 % ctx.nshards {
+        nested_family(ctx);
+    }
     // random tables with 3..4 (quick) / 4..6 (thorough) registrations, duplicates likely
     let n_rand = ctx.budget(300, 20_000) / ctx.nshards + 1;
     let mut rng: Rng = ctx.rng.fork(0xC17);
@@ -399,6 +402,81 @@ fn incremental_case(ctx: &mut Ctx, prefix: &str, regs: &[(usize, usize)]) -> boo
     false
 }
 
+/// A handler that forwards the request to another router (an alias / versioned sub-router) before it returns.
+struct Forwarder {
+    id: usize,
+    inner: std::sync::Arc<HttpRoutes<Log>>,
+}
+
+impl EndpointHandler<Log> for Forwarder {
+    fn handle_request(&self, req: &Request, arg: &Log) -> Response {
+        arg.lock().unwrap().push(self.id);
+        self.inner.handle_http_request(req, arg)
+    }
+}
+
+/// Routers nested through forwarding handlers, one to three levels deep: every level's handler runs exactly
+/// once, the innermost response comes back, stamped by the outermost router.
+fn nested_family(ctx: &mut Ctx) {
+    for depth in 1..=3usize {
+        for (mi, method) in METHODS.iter().enumerate() {
+            for path in ["/a", "/a/b", "/"] {
+                for registered_inner in [true, false] {
+                    if !ctx.begin() {
+                        continue;
+                    }
+                    ctx.rep.evaluations += 1;
+                    ctx.rep.count("nested_dispatches");
+                    let mut inner: HttpRoutes<Log> = HttpRoutes::new("innermost".to_string(), String::new());
+                    if registered_inner {
+                        let _ = inner.add_route(*method, path.to_string(), Box::new(Recorder { id: 100 }));
+                    }
+                    let mut router = std::sync::Arc::new(inner);
+                    for level in 0..depth {
+                        let mut outer: HttpRoutes<Log> = HttpRoutes::new(format!("level-{}", level), String::new());
+                        let _ = outer.add_route(*method, path.to_string(), Box::new(Forwarder { id: level, inner: router.clone() }));
+                        router = std::sync::Arc::new(outer);
+                    }
+                    let raw = format!("{} {} HTTP/1.1\r\n\r\n", method.to_str(), path);
+                    let req = match Request::try_from(raw.as_bytes(), None) {
+                        Ok(r) => r,
+                        Err(_) => continue,
+                    };
+                    let log: Log = Mutex::new(Vec::new());
+                    let case = J::obj(vec![("family", J::s("nested")), ("depth", J::u(depth as u64)), ("method", J::u(mi as u64)), ("path", J::s(path)), ("inner_registered", J::Bool(registered_inner))]);
+                    let resp = match guarded(|| router.handle_http_request(&req, &log)) {
+                        Ok(r) => r,
+                        Err(p) => {
+                            ctx.rep.violation("C17:panic", format!("dispatch through {} forwarding handlers panicked: {}", depth, p), case);
+                            return;
+                        }
+                    };
+                    let invoked = log.lock().map(|l| l.clone()).unwrap_or_default();
+                    let mut want: Vec<usize> = (0..depth).rev().collect();
+                    if registered_inner {
+                        want.push(100);
+                    }
+                    let mut ser = Vec::new();
+                    let _ = resp.write_all(&mut ser);
+                    let (srv, code) = match read_response(&ser) {
+                        RespParse::Complete(v) => (v.header("Server").unwrap_or("").to_string(), v.code),
+                        _ => (String::new(), 0),
+                    };
+                    let want_code = if registered_inner { 200 } else { 404 };
+                    if invoked != want || code != want_code || srv != format!("level-{}", depth - 1) {
+                        ctx.rep.violation(
+                            "C17:nested-dispatch",
+                            format!("{} levels of forwarding for {} {:?}: handlers invoked {:?} (expected {:?}), status {} (expected {}), Server {:?} (expected the outermost router's)", depth, method.to_str(), path, invoked, want, code, want_code, srv),
+                            case,
+                        );
+                        return;
+                    }
+                }
+            }
+        }
+    }
+}
+
 /// Long paths: routes whose prefix + path has 254..514 bytes and which are prefixes of one another.
 fn long_path_family(ctx: &mut Ctx) {
     let n = ctx.budget(160, 8_000) / ctx.nshards + 1;
@@ -419,6 +497,10 @@ pub fn replay(ctx: &mut Ctx, case: &J) {
     ctx.only_case = None;
     let prefix = case.gs("prefix");
     let regs: Vec<(usize, usize)> = case.garr("regs_idx").iter().filter_map(|x| x.as_u64()).map(|x| ((x / 8) as usize, (x % 8) as usize)).collect();
+    if case.gs("family") == "nested" {
+        nested_family(ctx);
+        return;
+    }
     if case.gs("family") == "incremental" {
         incremental_case(ctx, &prefix, &regs);
         return;
